@@ -1557,3 +1557,47 @@ _run13 = run
 def run(ctx, rep, tier):
     _run13(ctx, rep, tier)
     _emitter_stops_where_reachability_stops(ctx, rep, tier)
+
+
+# ---------------------------------------------------------------------------------------------------------------- C18.ts
+def _tree_shape_typing(ctx, rep, tier):
+    """C18.ts (E10, nmfulint/treeshape.py): every access to a parse tree node is safe in every tree the embedded grammar can produce.
+
+    The front end reads lark trees by position (`X.children[2]`), by kind (`.value` of a token, `.data` / `.children` of a tree) and through dict
+    literals keyed by a label or a token's text. A position that does not exist in one expansion, a `.value` read from what can be a tree, a label
+    without a dict entry are an IndexError / AttributeError / KeyError for exactly the sources that use that expansion - an internal exception where
+    the property demands a diagnosed error. The analysis types every tree-valued variable by the set of (label, expansion) shapes that can reach it
+    (interprocedurally, narrowed by the label / length / kind tests of the code) and decides each access for all of them."""
+    from .. import treeshape
+    rep.rule("C18.ts", "every positional / kind-specific access to a parse tree node (`.children[i]`, `.value`, `.data`, `{..}[X.data]`, find_data(label)) is "
+                       "valid for every (label, expansion) shape of the embedded grammar that can reach it - decided by abstract interpretation of the front "
+                       "end over grammar shapes, for all syntactically valid sources")
+    a = treeshape.analyse(ctx)
+    seen = set()
+    for f in a.findings:
+        key = (f.func, f.kind, f.construct)
+        if key in seen:
+            continue
+        seen.add(key)
+        rep.bad("C18.ts", f.func, f"{f.kind}: {f.construct}"[:200], f.message)
+    done = set()
+    for func, construct, kind in a.checked:
+        key = (func, kind, construct)
+        if key in done or key in seen:
+            continue
+        done.add(key)
+        rep.ok("C18.ts", func, f"{kind}: {construct}"[:200], sample=len(done) % 40 == 1)
+    rep.count("treeshape:functions_analysed", len(a.called))
+    rep.count("treeshape:accesses_decided", len(a.checked))
+    rep.count("treeshape:accesses_on_inexactly_typed_values(not decided)", len(a.unresolved))
+    rep.count("treeshape:accesses_on_untyped_values(not decided)", len(a.untyped))
+    rep.count("treeshape:arguments_of_inexact_provenance(assumed to conform)", len(a.inexact_args))
+    rep.floor("C18.ts", 120)
+
+
+_run14 = run
+
+
+def run(ctx, rep, tier):
+    _run14(ctx, rep, tier)
+    _tree_shape_typing(ctx, rep, tier)
